@@ -2,9 +2,9 @@
 
 Same clauses as checks/C04.py (its `contract` / `invariance` are used unchanged); new is only the input space:
 
-  vol-*    pure-integer and mixed general-integer programs with 4..9 variables, 1..3 user rows with integer entries up to 9,
-           explicit bound rows x_j <= U_j (U_j in 1..3, mostly 3), three row shapes (multi-knapsack / covering / mixed
-           sign) x four cost shapes:
+  vol-*    pure-integer and mixed general-integer programs with 4..9 variables, 1..3 user rows with integer entries up to
+           3 / 5 / 9 (drawn per instance), explicit bound rows x_j <= U_j (U_j in 1..3, mostly 3), three row shapes
+           (multi-knapsack / covering / mixed sign) x four cost shapes:
              random         c_j in 1..9 (mixed sign: -5..9)
              small          c_j in 1..3 (many ties between vertices, LP values on a coarse grid)
              dual-integral  c = sum_i y_i * row_i + r  with integer multipliers y_i in 0..2 and a sparse integer reduced-cost
@@ -12,17 +12,28 @@ Same clauses as checks/C04.py (its `contract` / `invariance` are used unchanged)
                             integral, so the LP VALUE is an integer although the LP VERTEX is fractional (thirds, sevenths,
                             ... from the row intersections) - the values a float simplex reports there are k +- 1e-15
              row-sum        c = row_1 + ... + row_m (the special case y = 1)
+           vol-general-integer draws from all of it (about 72 % pure integer, 24 % one continuous variable, 4 % two);
+           vol-integral-lp-value is the same generator restricted to pure-integer programs with dual-integral / row-sum costs
+           and 2..3 rows (LP values exactly integral at fractional vertices; the optimum often equals the LP bound).
            Every instance is solved in ONE direction (knapsack: max, cover: min, mixed sign: drawn) under the option sets
-           VOL_OPTS = default / heuristics=False / heuristics + LNS / all-zero warm start, and judged by exact enumeration
+           VOL_OPTS = default / heuristics=False / heuristics + LNS / all-zero warm start (quick tier of
+           vol-integral-lp-value: one of them per instance in rotation, all four on every 8th instance - the solver call
+           and the oracle cost about the same there, so this buys three times the instances), and judged by exact enumeration
            of the whole box (oracles.milp_exact.solve_int_box; one continuous variable: closed-form interval per integer
            assignment; two continuous variables: oracles.milp_exact.solve, exact LP per assignment).
-  mixbin-* 0/1 programs (6..10 binaries with explicit x_j <= 1 rows) plus 1..2 continuous variables that carry a cost, two
-           knapsack (max) or covering (min) rows over all variables; run with heuristics=False (plain tree search; the
-           incumbent improves several times inside the tree while many nodes are open) and with the default options.
+  mixbin-continuous-cost
+           0/1 programs (6..12 binaries with explicit x_j <= 1 rows; 4..6 when there are two continuous variables) plus 1..2
+           continuous variables (bound rows 1..5) that carry a cost, two knapsack (max) or covering (min) rows over all
+           variables; run with heuristics=False (plain tree search: the incumbent improves several times inside the tree
+           while many nodes are open) and with the default options.
            Oracle: all 2^k binary assignments, continuous part in closed form (one) / by the exact LP oracle (two).
 
-Instances are deduplicated by digest.  non-trivial = the exact LP relaxation optimum differs from the exact optimum (as in
-checks/C04.py); additionally counted: how many instances have an exactly integral LP value at a fractional LP vertex.
+Instances are deduplicated by digest; every family has its own RNG stream.  non-trivial = the exact LP relaxation optimum
+differs from the exact optimum (as in checks/C04.py); additionally counted (c04_stats): how many instances have an exactly
+integral LP value at a fractional LP vertex, and how many have their optimum equal to that LP bound.
+
+Measured per instance (CPU): solve_milp 1..4 ms per call at 6..8 variables with entries <= 3, 4..10 ms at 9 variables with
+entries <= 9; box enumeration 0.5 / 2 / 5 / 20 ms at 6 / 7 / 8 / 9 general integers; exact LP relaxation 1..2.5 ms.
 """
 from __future__ import annotations
 
@@ -253,26 +264,26 @@ VOLUME = {  # family -> generator, per tier: instances, generator parameters, ro
     "vol-general-integer": {
         "gen": gen_vol, "what": "all row shapes x all cost shapes, entries up to 3 / 5 / 9 (drawn per instance), ~72 % pure "
                                 "integer, ~24 % one continuous variable, ~4 % two (then n = 4..5)",
-        "quick": (400, {"nmax": 7}, False), "thorough": (25000, {"nmax": 9}, False)},
+        "quick": (400, {"nmax": 7}, False), "thorough": (22000, {"nmax": 9}, False)},
     "vol-integral-lp-value": {
         "gen": gen_vol, "what": "pure-integer programs whose costs are integer combinations of the rows (cost shapes "
                                 "dual-integral and row-sum), 2..3 user rows: the LP value of the root and of many tree nodes is "
                                 "exactly an integer at a fractional vertex, the optimum often equals the LP bound",
         "quick": (2800, dict(INTEGRAL_KW, nmin=6, nmax=8, amax=(3,)), True),
-        "thorough": (40000, dict(INTEGRAL_KW, nmin=6, nmax=9, amax=(3, 3, 5)), False)},
+        "thorough": (36000, dict(INTEGRAL_KW, nmin=6, nmax=9, amax=(3, 3, 5)), False)},
     "mixbin-continuous-cost": {
         "gen": gen_mixbin, "what": "0/1 variables with explicit x_j <= 1 rows + 1..2 continuous variables (bound rows 1..5) "
                                    "that carry a cost, two knapsack (max) / covering (min) rows over all variables",
-        "quick": (200, {"kmax": 10}, False), "thorough": (15000, {"kmax": 12}, False)},
+        "quick": (200, {"kmax": 10}, False), "thorough": (14000, {"kmax": 12}, False)},
 }
 
 
 def build_units(ctx):
     """-> [(instance json, family, indices of the option sets to run)] deduplicated by digest; scopes recorded on ctx."""
-    rng = random.Random(ctx.seed + 3)
     units = []
     seen = set()
     for fam, spec in VOLUME.items():
+        rng = random.Random(f"C04 round 3/{fam}/{ctx.seed}")  # one stream per family (a string seed is hashed by sha512)
         count, kw, rotate = spec["quick" if ctx.quick else "thorough"]
         opts = MIXBIN_OPTS if fam.startswith("mixbin") else VOL_OPTS
         k = r = 0
